@@ -405,6 +405,51 @@ Proof.
   intros recs w H. destruct (enc_messages_cases recs) as [[b Hb]|[Hb _]]; rewrite Hb in H; discriminate.
 Qed.
 
+(* ---- why the third conjunct of `fits` is needed ------------------------------------------------------ *)
+(* produce.rs:228 writes the message size with an unchecked `as i32`.  When key and value are each below
+   2^31 bytes (so no ECodec) but 14 + |key| + |value| >= 2^31, the encoder still answers Ok and the size
+   field wraps; the strict parser refuses the result.  (Needs >= 2 GiB of payload in one record.) *)
+Lemma rd_i32_app_wrap z r : rd_int 4 (enc_i32 z ++ r) = Some (wrap_s 32 z, r).
+Proof.
+  unfold rd_int. rewrite rd_app by apply be_enc_length. cbv beta iota.
+  unfold enc_i32. rewrite be_dec_s_enc_wrap by lia. change (8 * Z.of_nat 4) with 32. reflexivity.
+Qed.
+
+Lemma wrap_s_32_wrapped z : 2 ^ 31 <= z < 2 ^ 32 + 14 -> wrap_s 32 z < 14.
+Proof.
+  intros H. unfold wrap_s. change (2 ^ (32 - 1)) with 2147483648. change (2 ^ 32) with 4294967296 in *.
+  change (2 ^ 31) with 2147483648 in H.
+  destruct (z mod 4294967296 <? 2147483648) eqn:E; lia.
+Qed.
+
+Lemma enc_messages_single m X : enc_message MESSAGE_MAGIC_BYTE 0 m = Ok X -> enc_messages [m] = Ok X.
+Proof. intros H. unfold enc_messages. cbn [enc_all]. rewrite H. cbn [bind]. rewrite app_nil_r. reflexivity. Qed.
+
+Theorem C03_size_cast_wraps : forall k v,
+  blen k < 2 ^ 31 -> blen v < 2 ^ 31 -> 2 ^ 31 <= 14 + blen k + blen v ->
+  exists bs, enc_messages [(Some k, Some v)] = Ok bs /\ spec_parse bs = None.
+Proof.
+  intros k v Hk Hv Hbig. exists (ser_message 0 0 (Some k) (Some v)). split.
+  - apply enc_messages_single.
+    change (enc_message MESSAGE_MAGIC_BYTE 0 (Some k, Some v)) with (enc_message 0 0 (Some k, Some v)).
+    apply enc_message_ser; cbn [olen]; assumption.
+  - pose proof (blen_ser_message 0 0 (Some k) (Some v)) as HL. cbn [olen] in HL.
+    assert (Hone : spec_parse_one (ser_message 0 0 (Some k) (Some v)) = None).
+    { pose proof (blen_ser_body 0 (Some k) (Some v)) as Hb. cbn [olen] in Hb.
+      unfold spec_parse_one, ser_message. cbv zeta.
+      set (body := ser_body 0 (Some k) (Some v)) in *.
+      rewrite rd_i64_app by (unfold in_i64; lia). cbv beta iota.
+      rewrite rd_i32_app_wrap. cbv beta iota.
+      assert (E : (wrap_s 32 (4 + blen body) <? 14) = true).
+      { apply Z.ltb_lt. apply wrap_s_32_wrapped. change (2 ^ 32) with 4294967296.
+        change (2 ^ 31) with 2147483648 in *. lia. }
+      rewrite E. reflexivity. }
+    revert HL Hone. generalize (ser_message 0 0 (Some k) (Some v)). intros X HL Hone.
+    pose proof (blen_nonneg k). pose proof (blen_nonneg v).
+    unfold spec_parse. destruct (length X) as [|f] eqn:EL; [unfold blen in HL; lia|].
+    rewrite spec_parse_go_S by (intros ->; discriminate EL). rewrite Hone. reflexivity.
+Qed.
+
 (* ---- examples (non-vacuity) ----------------------------------------------------------------------- *)
 
 (* a two-record batch: null key with an empty (Some []) value; binary key with a short value *)
@@ -418,6 +463,14 @@ Proof. repeat constructor; vm_compute; reflexivity. Qed.
 
 Example ex_plain_enc : enc_messages ex_recs = Ok ex_bytes /\ length ex_bytes = 58%nat.
 Proof. vm_compute. split; reflexivity. Qed.
+
+(* the literal wire bytes (cross-checked outside Coq against Python's struct + zlib.crc32) *)
+Example ex_plain_literal :
+  map Zb ex_bytes =
+  [0; 0; 0; 0; 0; 0; 0; 0;  0; 0; 0; 14;  121; 87; 72; 224;  0; 0;  255; 255; 255; 255;  0; 0; 0; 0;
+   0; 0; 0; 0; 0; 0; 0; 0;  0; 0; 0; 20;  120; 168; 2; 53;  0; 0;  0; 0; 0; 4; 0; 255; 128; 10;
+   0; 0; 0; 2; 104; 105].
+Proof. vm_compute. reflexivity. Qed.
 
 Example ex_plain_parse :
   spec_parse ex_bytes =
@@ -509,7 +562,16 @@ Proof.
   unfold blen. rewrite repeat_length. apply Z2Nat.id. apply Z.pow_nonneg. lia.
 Qed.
 
+(* and such a record exists: key and value of 2^30 zero bytes each (never computed) *)
+Example ex_size_cast_wraps_exists : exists recs bs, enc_messages recs = Ok bs /\ spec_parse bs = None.
+Proof.
+  destruct (C03_size_cast_wraps (repeat x00 (Z.to_nat (2 ^ 30))) (repeat x00 (Z.to_nat (2 ^ 30)))) as [bs H].
+  1-3: unfold blen; rewrite repeat_length, Z2Nat.id by lia; lia.
+  eexists. exists bs. exact H.
+Qed.
+
 Print Assumptions spec_parse_one_ser.
+Print Assumptions C03_size_cast_wraps.
 Print Assumptions spec_parse_ser.
 Print Assumptions C03_plain.
 Print Assumptions C03_plain_ok.
